@@ -45,6 +45,19 @@ Theorem C09_values_roundtrip_partial :
 Proof. exact json_values_roundtrip. Qed.
 Print Assumptions C09_values_roundtrip_partial.
 
+(* the entry of a single-valued attribute: left out when equal to get_default_value() and
+   SERIALIZE_DEFAULT_VALUES is off; an absent entry reads as that same default *)
+Theorem C09_entry_roundtrip_partial :
+  forall (O : Type) (to_string : O -> str) (from_string : str -> option O),
+  (forall o, from_string (to_string o) = Some o) ->
+  forall veq : pyv O -> pyv O -> bool,
+  (forall a b, veq a b = true -> a = b) ->
+  forall (sd : bool) (t : etag) (dflt v : pyv O),
+  well_typed t v ->
+  read_entry from_string t dflt (write_entry to_string veq sd t dflt v) = v.
+Proof. exact json_entry_roundtrip. Qed.
+Print Assumptions C09_entry_roundtrip_partial.
+
 (* attribute values keep their JSON-native type *)
 Theorem C09_native_kind_partial :
   forall (O : Type) (to_string : O -> str) (t : etag) (v : pyv O),
